@@ -39,6 +39,23 @@ def envelope(signed, signers=(), mode="gpg", states=None):
     return {"signatures": sigs, "signed": signed}
 
 
+RESPELL = ("mixed", "upper", "nl_for_last", "trail_nl", "lead_ws")
+
+
+def respelled(i, th, spellings, extra=()):
+    """a delegation listing signer i's key under its canonical and alternative spellings (plus other signers)"""
+    ks = [PUBHEX[i]] + [E.KEY_SPELLINGS[sp](PUBHEX[i]) for sp in spellings] + [PUBHEX[j] for j in extra]
+    return {"pubkeys": ks, "threshold": th}
+
+
+def respell_signatures(U, i, spellings):
+    """file signer i's (single) signature under each alternative spelling as well"""
+    U = {"signatures": dict(U["signatures"]), "signed": U["signed"]}
+    for sp in spellings:
+        U["signatures"][E.KEY_SPELLINGS[sp](PUBHEX[i])] = U["signatures"][PUBHEX[i]]
+    return U
+
+
 # ------------------------------------------------------------------ independent schema
 ND = r"\d"   # Python's \d on str patterns = Unicode Nd, exactly CPython's strptime notion
 UTC_RE = re.compile(r"(\d\d\d\d)-(1[0-2]|0[1-9]|[1-9])-(3[01]|[12]\d|0[1-9]|[1-9]| [1-9])T(2[0-3]|[0-1]\d|\d):([0-5]\d|\d):(6[0-1]|[0-5]\d|\d)Z", re.I)
